@@ -95,7 +95,10 @@ class SumAggregator:
             return ret
 
         preds: set[AnnotatedPredicate] = set()
-        global_vars = collect_binding_information_body(body)[0]
+        # every variable occurring globally in the body is fixed per rule instance, also one that ngo's conservative
+        # binding analysis does not count as bound (day(2*D) binds D for clingo)
+        bound_vars, unbound_vars = collect_binding_information_body(body)
+        global_vars = set(bound_vars) | set(unbound_vars)
         alone = True
         for elem in head.elements:
             condition: AST
